@@ -28,7 +28,10 @@ def _hex(x):
 def _q(x):
     if x is None:
         return -999999999
-    return int(round(float(x) * 1e8))
+    x = float(x)
+    if x != x or x in (float('inf'), float('-inf')):
+        return -888888888
+    return int(round(max(min(x, 20.0), -20.0) * 1e8))
 
 
 def project(js_results, scn, scheme):
